@@ -399,9 +399,15 @@ func (l *leader) notifyFlr(includeConfig bool) {
 		update.config = &config
 	}
 	for _, repl := range l.repls {
+		update := update
 		select {
 		case repl.leaderUpdateCh <- update:
-		case <-repl.leaderUpdateCh:
+		case pending := <-repl.leaderUpdateCh:
+			if update.config == nil {
+				// replication has not seen the config carried by the
+				// update we are replacing, so hand it over with this one
+				update.config = pending.config
+			}
 			repl.leaderUpdateCh <- update
 		}
 		if trace {
